@@ -65,35 +65,53 @@ class Parser:
         return d
 
     def quotient(self):
+        # `N / D`: a numerator or denominator with more than one factor must be grouped, "(a * b) / (c * d)"; an
+        # ungrouped `a / b * c` or `a * b / c` is not in the documented grammar (it would read as a different unit)
         if self.peek("1 / "):
             self.eat("1 / ")
-            return self.product_or_paren().pow(-1)
-        num = self.product_or_paren()
+            return self.paren_or_factor().pow(-1)
+        num, grouped, n = self.product_or_paren()
         if self.peek(" / "):
+            if n > 1 and not grouped:
+                raise ParseError("ungrouped multi-factor numerator before ' / ' in %r" % self.s)
             self.eat(" / ")
-            den = self.product_or_paren()
+            den = self.paren_or_factor()
             return num.mul(den.pow(-1))
         return num
 
-    def product_or_paren(self):
-        # "(a * b)" is only used to group a multi-factor product
+    def paren_product(self):
+        """'(a * b ...)' -> denotation, or None (position restored) if the text here is not a grouped product."""
         if self.peek("(") and not self.peek(UNL_MAG):
             save = self.i
             try:
                 self.eat("(")
-                d = self.product()
+                d, _ = self.product()
                 self.eat(")")
                 return d
             except ParseError:
                 self.i = save
-        return self.product()
+        return None
+
+    def paren_or_factor(self):
+        d = self.paren_product()
+        return d if d is not None else self.factor()
+
+    def product_or_paren(self):
+        # "(a * b)" is only used to group a multi-factor product; -> (denotation, grouped?, number of factors)
+        d = self.paren_product()
+        if d is not None:
+            return d, True, 2
+        d, n = self.product()
+        return d, False, n
 
     def product(self):
         d = self.factor()
+        n = 1
         while self.peek(" * "):
             self.eat(" * ")
             d = d.mul(self.factor())
-        return d
+            n += 1
+        return d, n
 
     def factor(self):
         b = self.base()
